@@ -1,6 +1,7 @@
 import PeliteModel.Spec.PatternSem
 import PeliteModel.Lemmas.Exec
 import PeliteModel.Lemmas.PeHdr
+import PeliteModel.Lemmas.Pattern
 /-!
 Lemmas for C11 (semantic half): the interpreter model `Exec.exec` run on the reference compiler's
 output computes the documented semantics `PatSem.sem`.
@@ -1394,12 +1395,8 @@ variable {S : ScanI} (hS : S.WF) {U : List Atom}
 include hS
 
 omit hS in
-theorem hfr_tail {it : Item} {r : List Item} {x y pcR : Nat}
-    (h : openRange (it :: r) = false ∨ IsTerm S U x pcR) (e : x = y) :
-    openRange r = false ∨ IsTerm S U y pcR := by
-  rcases h with h | h
-  · left; simp only [openRange, Bool.or_eq_false_iff] at h; exact h.2
-  · right; exact h.cast e
+theorem term_tail {t : Bool} {x y pcR : Nat} (h : t = true → IsTerm S U x pcR) (e : x = y) :
+    t = true → IsTerm S U y pcR := fun ht => (h ht).cast e
 
 omit hS in
 theorem wf_cons {d : Nat} {it : Item} {r : List Item} (h : wfItems d (it :: r) = true) :
@@ -1407,9 +1404,16 @@ theorem wf_cons {d : Nat} {it : Item} {r : List Item} (h : wfItems d (it :: r) =
   simpa [wfItems] using h
 
 omit hS in
-theorem cl_cons {it : Item} {r : List Item} (h : closedLast (it :: r) = true) :
-    closedLastItem it = true ∧ closedLast r = true := by
-  simpa [closedLast] using h
+theorem sc_tail {t : Bool} {it : Item} {r : List Item} (h : scopeOK t (it :: r) = true) : scopeOK t r = true := by
+  cases it <;> simp only [scopeOK, Bool.and_eq_true] at h <;> first | exact h | exact h.2
+
+omit hS in
+theorem comp_silent : ∀ (r : List Item) (k : Nat), silent r = true → comp k none r = []
+  | [], k, _ => by simp [comp, flush]
+  | it :: r, k, h => by
+    simp only [silent, List.all_cons, Bool.and_eq_true] at h
+    have ih := comp_silent r k (by simpa [silent] using h.2)
+    cases it <;> simp_all [silentItem, comp]
 
 end Main4
 
@@ -1437,23 +1441,23 @@ theorem simple_case {it : Item} {r : List Item} {a : Atom} {k d : Nat} {pend : O
 
 mutual
 theorem comp_runs (hB : ∀ b, Atom.byte b ∈ U → b < 256) (hC : Coherent S) :
-    ∀ (items : List Item) (k d : Nat) (pend : Option Nat) (E pc c : Nat) (sv : Array Nat) (pcR : Nat),
-    wfItems d items = true → closedLast items = true → At U pc (comp k pend items) → PendGood pend E →
-    c < 4294967296 → (openRange items = false ∨ IsTerm S U (pc + (comp k pend items).length) pcR) →
+    ∀ (items : List Item) (k d : Nat) (pend : Option Nat) (E pc c : Nat) (sv : Array Nat) (pcR : Nat) (t : Bool),
+    wfItems d items = true → scopeOK t items = true → At U pc (comp k pend items) → PendGood pend E →
+    c < 4294967296 → (t = true → IsTerm S U (pc + (comp k pend items).length) pcR) →
     Runs S U k pc (comp k pend items).length E c sv (sem S k items (cur pend E c))
-  | [], k, d, pend, E, pc, c, sv, pcR, _, _, hA, hg, hc, _ => by
+  | [], k, d, pend, E, pc, c, sv, pcR, t, _, _, hA, hg, hc, _ => by
     simp only [comp, sem] at hA ⊢
     have := Runs.flush hS (k := k) (len := 0) (sv := sv) (c := c) (res := some (cur pend E c, [])) hA hg
       ⟨sv, rfl, SaveOK.refl _ _, Writes.nil _, cur_lt hc⟩
     simpa using this
-  | .ws s :: r, k, d, pend, E, pc, c, sv, pcR, hwf, hcl, hA, hg, hc, hfr => by
+  | .ws s :: r, k, d, pend, E, pc, c, sv, pcR, t, hwf, hcl, hA, hg, hc, hfr => by
     have hcomp : comp k pend (.ws s :: r) = comp k pend r := by rw [comp]
     have hsem : sem S k (.ws s :: r) (cur pend E c) = sem S k r (cur pend E c) := by
       rw [sem_cons S k _ r _ (by intro a b h; cases h)]; simp [semItem, slotsItem, thenRes_nil]
     rw [hcomp] at hA hfr ⊢
     rw [hsem]
-    exact comp_runs hB hC r k d pend E pc c sv pcR (wf_cons hwf).2 (cl_cons hcl).2 hA hg hc (hfr_tail hfr rfl)
-  | .str bs :: r, k, d, pend, E, pc, c, sv, pcR, hwf, hcl, hA, hg, hc, hfr => by
+    exact comp_runs hB hC r k d pend E pc c sv pcR t (wf_cons hwf).2 (sc_tail hcl) hA hg hc (term_tail hfr rfl)
+  | .str bs :: r, k, d, pend, E, pc, c, sv, pcR, t, hwf, hcl, hA, hg, hc, hfr => by
     by_cases hbs : bs = []
     · subst hbs
       have hcomp : comp k pend (.str [] :: r) = comp k pend r := by rw [comp]; simp
@@ -1461,7 +1465,7 @@ theorem comp_runs (hB : ∀ b, Atom.byte b ∈ U → b < 256) (hC : Coherent S) 
         rw [sem_cons S k _ r _ (by intro a b h; cases h)]; simp [semItem, slotsItem, thenRes_nil, matchBytes]
       rw [hcomp] at hA hfr ⊢
       rw [hsem]
-      exact comp_runs hB hC r k d pend E pc c sv pcR (wf_cons hwf).2 (cl_cons hcl).2 hA hg hc (hfr_tail hfr rfl)
+      exact comp_runs hB hC r k d pend E pc c sv pcR t (wf_cons hwf).2 (sc_tail hcl) hA hg hc (term_tail hfr rfl)
     · have hcomp : comp k pend (.str bs :: r) =
           flush pend ++ (bs.map UInt8.toNat).map Atom.byte ++ comp (slotsItem k (.str bs)) none r := by
         rw [comp]; simp [hbs, slotsItem, List.map_map, Function.comp_def]
@@ -1475,9 +1479,9 @@ theorem comp_runs (hB : ∀ b, Atom.byte b ∈ U → b < 256) (hC : Coherent S) 
         have hl : (comp k pend (.str bs :: r)).length =
             (flush pend).length + ((bs.map UInt8.toNat).map Atom.byte).length + (comp (slotsItem k (.str bs)) none r).length := by
           rw [hcomp]; simp only [List.length_append]
-        exact comp_runs hB hC r _ d none 0 _ c1 sv1 pcR (wf_cons hwf).2 (cl_cons hcl).2
-          (by simpa [Nat.add_assoc] using hA'.right) rfl hc1 (hfr_tail hfr (by rw [hl]; simp only [List.length_map]; omega))
-  | .any :: r, k, d, pend, E, pc, c, sv, pcR, hwf, hcl, hA, hg, hc, hfr => by
+        exact comp_runs hB hC r _ d none 0 _ c1 sv1 pcR t (wf_cons hwf).2 (sc_tail hcl)
+          (by simpa [Nat.add_assoc] using hA'.right) rfl hc1 (term_tail hfr (by rw [hl]; simp only [List.length_map]; omega))
+  | .any :: r, k, d, pend, E, pc, c, sv, pcR, t, hwf, hcl, hA, hg, hc, hfr => by
     have hsem : sem S k (.any :: r) (cur pend E c) = sem S k r (wadd32 (cur pend E c) 1) := by
       rw [sem_cons S k _ r _ (by intro a b h; cases h)]; simp [semItem, slotsItem, thenRes_nil, addRva_eq_wadd32]
     rw [hsem]
@@ -1487,27 +1491,27 @@ theorem comp_runs (hB : ∀ b, Atom.byte b ∈ U → b < 256) (hC : Coherent S) 
       rw [hcomp] at hA hfr ⊢
       simp only [PendGood] at hg
       subst hg
-      have := comp_runs hB hC r k d (some 1) 0 pc c sv pcR (wf_cons hwf).2 (cl_cons hcl).2 hA (by simp [PendGood]) hc
-        (hfr_tail hfr rfl)
+      have := comp_runs hB hC r k d (some 1) 0 pc c sv pcR t (wf_cons hwf).2 (sc_tail hcl) hA (by simp [PendGood]) hc
+        (term_tail hfr rfl)
       simpa [cur] using this
     | some n =>
       by_cases hm : n ≠ 0 ∧ n < 255
       · have hcomp : comp k (some n) (.any :: r) = comp k (some (n + 1)) r := by rw [comp]; simp [hm]
         rw [hcomp] at hA hfr ⊢
-        have := comp_runs hB hC r k d (some (n + 1)) E pc c sv pcR (wf_cons hwf).2 (cl_cons hcl).2 hA
-          (by simp only [PendGood]; omega) hc (hfr_tail hfr rfl)
+        have := comp_runs hB hC r k d (some (n + 1)) E pc c sv pcR t (wf_cons hwf).2 (sc_tail hcl) hA
+          (by simp only [PendGood]; omega) hc (term_tail hfr rfl)
         simpa [cur, wadd32_wadd32, Nat.add_assoc] using this
       · have hcomp : comp k (some n) (.any :: r) = .skip n :: comp k (some 1) r := by rw [comp]; simp [hm]
         rw [hcomp] at hA hfr ⊢
         have h1 := run_flush hS (pend := some n) (E := E) (c := c) (sv := sv) (pc := pc)
           (by intro i a ha; exact hA i a (by cases i <;> simp_all [flush])) hg
-        have := comp_runs hB hC r k d (some 1) 0 (pc + 1) (cur (some n) E c) sv pcR (wf_cons hwf).2 (cl_cons hcl).2
+        have := comp_runs hB hC r k d (some 1) 0 (pc + 1) (cur (some n) E c) sv pcR t (wf_cons hwf).2 (sc_tail hcl)
           hA.tail (by simp [PendGood]) (cur_lt hc)
-          (hfr_tail hfr (by simp only [List.length_cons]; omega))
+          (term_tail hfr (by simp only [List.length_cons]; omega))
         have h2 : cur (some 1) 0 (cur (some n) E c) = wadd32 (cur (some n) E c) 1 := by simp [cur]
         rw [h2] at this
         exact Runs.of_eq h1 (by simp [flush]; omega) this
-  | .skip n :: r, k, d, pend, E, pc, c, sv, pcR, hwf, hcl, hA, hg, hc, hfr => by
+  | .skip n :: r, k, d, pend, E, pc, c, sv, pcR, t, hwf, hcl, hA, hg, hc, hfr => by
     have hsem : sem S k (.skip n :: r) (cur pend E c) = sem S k r (wadd32 (cur pend E c) n) := by
       rw [sem_cons S k _ r _ (by intro a b h; cases h)]; simp [semItem, slotsItem, thenRes_nil, addRva_eq_wadd32]
     rw [hsem]
@@ -1516,7 +1520,7 @@ theorem comp_runs (hB : ∀ b, Atom.byte b ∈ U → b < 256) (hC : Coherent S) 
       have hcomp : comp k pend (.skip 0 :: r) = comp k pend r := by rw [comp]; simp
       rw [hcomp] at hA hfr ⊢
       rw [wadd32_zero (cur_lt hc)]
-      exact comp_runs hB hC r k d pend E pc c sv pcR (wf_cons hwf).2 (cl_cons hcl).2 hA hg hc (hfr_tail hfr rfl)
+      exact comp_runs hB hC r k d pend E pc c sv pcR t (wf_cons hwf).2 (sc_tail hcl) hA hg hc (term_tail hfr rfl)
     · have hcomp : comp k pend (.skip n :: r) = flush pend ++ rangext n ++ comp k (some (n % 256)) r := by
         rw [comp]; simp [hn]
       rw [hcomp] at hA hfr ⊢
@@ -1526,53 +1530,52 @@ theorem comp_runs (hB : ∀ b, Atom.byte b ∈ U → b < 256) (hC : Coherent S) 
           (flush pend).length + (rangext n).length + (comp k (some (n % 256)) r).length := by
         simp only [List.length_append]
       have := comp_runs hB hC r k d (some (n % 256)) (n / 256 * 256) (pc + (flush pend).length + (rangext n).length)
-        (cur pend E c) sv pcR (wf_cons hwf).2 (cl_cons hcl).2 (by simpa [Nat.add_assoc] using hA.right)
-        (by simp only [PendGood]; omega) (cur_lt hc) (hfr_tail hfr (by rw [hl]; omega))
+        (cur pend E c) sv pcR t (wf_cons hwf).2 (sc_tail hcl) (by simpa [Nat.add_assoc] using hA.right)
+        (by simp only [PendGood]; omega) (cur_lt hc) (term_tail hfr (by rw [hl]; omega))
       have h3 : cur (some (n % 256)) (n / 256 * 256) (cur pend E c) = wadd32 (cur pend E c) n := by
         simp only [cur]; congr 1; omega
       rw [h3] at this
       exact Runs.of_eq (h1.trans h2) (by rw [hl]; omega) this
-  | .range a b :: r, k, d, pend, E, pc, c, sv, pcR, hwf, hcl, hA, hg, hc, hfr => by
+  | .range a b :: r, k, d, pend, E, pc, c, sv, pcR, t, hwf, hcl, hA, hg, hc, hfr => by
     have hab : a < b := by
       have := (wf_cons hwf).1
       simp [wfItem] at this; exact this.1
-    have hterm : IsTerm S U (pc + (comp k pend (.range a b :: r)).length) pcR := by
-      rcases hfr with h | h
-      · simp [openRange, openRangeItem] at h
-      · exact h
+    have ht : t = true := by
+      simp only [scopeOK, Bool.and_eq_true] at hcl; exact hcl.1
+    have hterm : IsTerm S U (pc + (comp k pend (.range a b :: r)).length) pcR := hfr ht
     refine range_runs hS hB hC hab hA hg hc hterm ?_
     intro pcM hpcM hAr c1 sv1 hc1
-    exact comp_runs hB hC r k d none 0 pcM c1 sv1 pcR (wf_cons hwf).2 (cl_cons hcl).2 hAr rfl hc1
-      (Or.inr (hterm.cast hpcM.symm))
-  | .byte b :: r, k, d, pend, E, pc, c, sv, pcR, hwf, hcl, hA, hg, hc, hfr =>
+    exact comp_runs hB hC r k d none 0 pcM c1 sv1 pcR t (wf_cons hwf).2 (sc_tail hcl) hAr rfl hc1
+      (fun _ => hterm.cast hpcM.symm)
+  | .byte b :: r, k, d, pend, E, pc, c, sv, pcR, t, hwf, hcl, hA, hg, hc, hfr =>
     simple_case hS (it := .byte b) rfl (wf_cons hwf).1 hA hg hc fun pc1 c1 sv1 hpc1 hAr hc1 =>
-      comp_runs hB hC r _ d none 0 pc1 c1 sv1 pcR (wf_cons hwf).2 (cl_cons hcl).2 hAr rfl hc1
-        (hfr_tail hfr (by rw [comp_simple (it := .byte b) rfl, hpc1]; simp only [List.length_append, List.length_cons, List.length_nil]; omega))
-  | .jump j :: r, k, d, pend, E, pc, c, sv, pcR, hwf, hcl, hA, hg, hc, hfr =>
+      comp_runs hB hC r _ d none 0 pc1 c1 sv1 pcR t (wf_cons hwf).2 (sc_tail hcl) hAr rfl hc1
+        (term_tail hfr (by rw [comp_simple (it := .byte b) rfl, hpc1]; simp only [List.length_append, List.length_cons, List.length_nil]; omega))
+  | .jump j :: r, k, d, pend, E, pc, c, sv, pcR, t, hwf, hcl, hA, hg, hc, hfr =>
     simple_case hS (it := .jump j) rfl (wf_cons hwf).1 hA hg hc fun pc1 c1 sv1 hpc1 hAr hc1 =>
-      comp_runs hB hC r _ d none 0 pc1 c1 sv1 pcR (wf_cons hwf).2 (cl_cons hcl).2 hAr rfl hc1
-        (hfr_tail hfr (by rw [comp_simple (it := .jump j) rfl, hpc1]; simp only [List.length_append, List.length_cons, List.length_nil]; omega))
-  | .save :: r, k, d, pend, E, pc, c, sv, pcR, hwf, hcl, hA, hg, hc, hfr =>
+      comp_runs hB hC r _ d none 0 pc1 c1 sv1 pcR t (wf_cons hwf).2 (sc_tail hcl) hAr rfl hc1
+        (term_tail hfr (by rw [comp_simple (it := .jump j) rfl, hpc1]; simp only [List.length_append, List.length_cons, List.length_nil]; omega))
+  | .save :: r, k, d, pend, E, pc, c, sv, pcR, t, hwf, hcl, hA, hg, hc, hfr =>
     simple_case hS (it := .save) rfl (wf_cons hwf).1 hA hg hc fun pc1 c1 sv1 hpc1 hAr hc1 =>
-      comp_runs hB hC r _ d none 0 pc1 c1 sv1 pcR (wf_cons hwf).2 (cl_cons hcl).2 hAr rfl hc1
-        (hfr_tail hfr (by rw [comp_simple (it := .save) rfl, hpc1]; simp only [List.length_append, List.length_cons, List.length_nil]; omega))
-  | .aligned n :: r, k, d, pend, E, pc, c, sv, pcR, hwf, hcl, hA, hg, hc, hfr =>
+      comp_runs hB hC r _ d none 0 pc1 c1 sv1 pcR t (wf_cons hwf).2 (sc_tail hcl) hAr rfl hc1
+        (term_tail hfr (by rw [comp_simple (it := .save) rfl, hpc1]; simp only [List.length_append, List.length_cons, List.length_nil]; omega))
+  | .aligned n :: r, k, d, pend, E, pc, c, sv, pcR, t, hwf, hcl, hA, hg, hc, hfr =>
     simple_case hS (it := .aligned n) rfl (wf_cons hwf).1 hA hg hc fun pc1 c1 sv1 hpc1 hAr hc1 =>
-      comp_runs hB hC r _ d none 0 pc1 c1 sv1 pcR (wf_cons hwf).2 (cl_cons hcl).2 hAr rfl hc1
-        (hfr_tail hfr (by rw [comp_simple (it := .aligned n) rfl, hpc1]; simp only [List.length_append, List.length_cons, List.length_nil]; omega))
-  | .readI w :: r, k, d, pend, E, pc, c, sv, pcR, hwf, hcl, hA, hg, hc, hfr =>
+      comp_runs hB hC r _ d none 0 pc1 c1 sv1 pcR t (wf_cons hwf).2 (sc_tail hcl) hAr rfl hc1
+        (term_tail hfr (by rw [comp_simple (it := .aligned n) rfl, hpc1]; simp only [List.length_append, List.length_cons, List.length_nil]; omega))
+  | .readI w :: r, k, d, pend, E, pc, c, sv, pcR, t, hwf, hcl, hA, hg, hc, hfr =>
     simple_case hS (it := .readI w) rfl (wf_cons hwf).1 hA hg hc fun pc1 c1 sv1 hpc1 hAr hc1 =>
-      comp_runs hB hC r _ d none 0 pc1 c1 sv1 pcR (wf_cons hwf).2 (cl_cons hcl).2 hAr rfl hc1
-        (hfr_tail hfr (by rw [comp_simple (it := .readI w) rfl, hpc1]; simp only [List.length_append, List.length_cons, List.length_nil]; omega))
-  | .readU w :: r, k, d, pend, E, pc, c, sv, pcR, hwf, hcl, hA, hg, hc, hfr =>
+      comp_runs hB hC r _ d none 0 pc1 c1 sv1 pcR t (wf_cons hwf).2 (sc_tail hcl) hAr rfl hc1
+        (term_tail hfr (by rw [comp_simple (it := .readI w) rfl, hpc1]; simp only [List.length_append, List.length_cons, List.length_nil]; omega))
+  | .readU w :: r, k, d, pend, E, pc, c, sv, pcR, t, hwf, hcl, hA, hg, hc, hfr =>
     simple_case hS (it := .readU w) rfl (wf_cons hwf).1 hA hg hc fun pc1 c1 sv1 hpc1 hAr hc1 =>
-      comp_runs hB hC r _ d none 0 pc1 c1 sv1 pcR (wf_cons hwf).2 (cl_cons hcl).2 hAr rfl hc1
-        (hfr_tail hfr (by rw [comp_simple (it := .readU w) rfl, hpc1]; simp only [List.length_append, List.length_cons, List.length_nil]; omega))
-  | .zero :: r, k, d, pend, E, pc, c, sv, pcR, hwf, hcl, hA, hg, hc, hfr =>
+      comp_runs hB hC r _ d none 0 pc1 c1 sv1 pcR t (wf_cons hwf).2 (sc_tail hcl) hAr rfl hc1
+        (term_tail hfr (by rw [comp_simple (it := .readU w) rfl, hpc1]; simp only [List.length_append, List.length_cons, List.length_nil]; omega))
+  | .zero :: r, k, d, pend, E, pc, c, sv, pcR, t, hwf, hcl, hA, hg, hc, hfr =>
     simple_case hS (it := .zero) rfl (wf_cons hwf).1 hA hg hc fun pc1 c1 sv1 hpc1 hAr hc1 =>
-      comp_runs hB hC r _ d none 0 pc1 c1 sv1 pcR (wf_cons hwf).2 (cl_cons hcl).2 hAr rfl hc1
-        (hfr_tail hfr (by rw [comp_simple (it := .zero) rfl, hpc1]; simp only [List.length_append, List.length_cons, List.length_nil]; omega))
-  | .group j gap body :: r, k, d, pend, E, pc, c, sv, pcR, hwf, hcl, hA, hg, hc, hfr => by
+      comp_runs hB hC r _ d none 0 pc1 c1 sv1 pcR t (wf_cons hwf).2 (sc_tail hcl) hAr rfl hc1
+        (term_tail hfr (by rw [comp_simple (it := .zero) rfl, hpc1]; simp only [List.length_append, List.length_cons, List.length_nil]; omega))
+  | .group j gap body :: r, k, d, pend, E, pc, c, sv, pcR, t, hwf, hcl, hA, hg, hc, hfr => by
     have hcomp : comp k pend (.group j gap body :: r) =
         flush pend ++ (.push j.push :: j.atom :: (comp k none body ++ [.pop])) ++
           comp (slotsItem k (.group j gap body)) none r := by
@@ -1580,9 +1583,8 @@ theorem comp_runs (hB : ∀ b, Atom.byte b ∈ U → b < 256) (hC : Coherent S) 
     have hwfb : wfItems (d + 1) body = true := by
       have := (wf_cons hwf).1
       simp [wfItem] at this; exact this.2
-    have hclb : closedLast body = true := by
-      have := (cl_cons hcl).1
-      simpa [closedLastItem] using this
+    have hclb : scopeOK true body = true := by
+      simp only [scopeOK, Bool.and_eq_true] at hcl; exact hcl.1
     have hA' := hA
     rw [hcomp] at hA'
     have hAc := hA'.left.right
@@ -1591,17 +1593,17 @@ theorem comp_runs (hB : ∀ b, Atom.byte b ∈ U → b < 256) (hC : Coherent S) 
       rw [hcomp]; simp only [List.length_append, List.length_cons, List.length_nil]; omega
     refine runs_cons hS (by intro a b h; cases h) hcomp hA hg ?_ ?_
     · refine group_runs hS (d := d) hAc (cur_lt hc) ?_
-      intro t sv1 ht
+      intro tg sv1 ht
       have hpop : U[pc + (flush pend).length + 2 + (comp k none body).length]? = some .pop := by
         have := hAc.tail.tail.right.head
         simpa [Nat.add_assoc] using this
-      exact comp_runs hB hC body k (d + 1) none 0 (pc + (flush pend).length + 2) t sv1 _ hwfb hclb
-        (by simpa [Nat.add_assoc] using hAc.tail.tail.left) rfl ht (Or.inr (IsTerm.pop hS hpop))
+      exact comp_runs hB hC body k (d + 1) none 0 (pc + (flush pend).length + 2) tg sv1 _ true hwfb hclb
+        (by simpa [Nat.add_assoc] using hAc.tail.tail.left) rfl ht (fun _ => IsTerm.pop hS hpop)
     · intro c1 sv1 hc1
-      exact comp_runs hB hC r _ d none 0 _ c1 sv1 pcR (wf_cons hwf).2 (cl_cons hcl).2
+      exact comp_runs hB hC r _ d none 0 _ c1 sv1 pcR t (wf_cons hwf).2 (sc_tail hcl)
         (by simpa [Nat.add_assoc] using hA'.right) rfl hc1
-        (hfr_tail hfr (by rw [hl]; simp only [List.length_cons, List.length_append, List.length_nil]; omega))
-  | .alt bodies :: r, k, d, pend, E, pc, c, sv, pcR, hwf, hcl, hA, hg, hc, hfr => by
+        (term_tail hfr (by rw [hl]; simp only [List.length_cons, List.length_append, List.length_nil]; omega))
+  | .alt bodies :: r, k, d, pend, E, pc, c, sv, pcR, t, hwf, hcl, hA, hg, hc, hfr => by
     have hcomp : comp k pend (.alt bodies :: r) =
         flush pend ++ compAlts k bodies ++ comp (slotsItem k (.alt bodies)) none r := by
       rw [comp]; simp [slotsItem]
@@ -1609,9 +1611,8 @@ theorem comp_runs (hB : ∀ b, Atom.byte b ∈ U → b < 256) (hC : Coherent S) 
       have := (wf_cons hwf).1
       simp [wfItem] at this
       exact ⟨by intro h; simp [h] at this, this.2⟩
-    have hclb : openRangeLast bodies = false ∧ closedLastAlts bodies = true := by
-      have := (cl_cons hcl).1
-      simpa [closedLastItem] using this
+    have hclb : scopeOKAlts (t && silent r) bodies = true := by
+      simp only [scopeOK, Bool.and_eq_true] at hcl; exact hcl.1
     have hA' := hA
     rw [hcomp] at hA'
     have hl : (comp k pend (.alt bodies :: r)).length =
@@ -1619,45 +1620,52 @@ theorem comp_runs (hB : ∀ b, Atom.byte b ∈ U → b < 256) (hC : Coherent S) 
       rw [hcomp]; simp only [List.length_append]
     refine runs_cons hS (by intro a b h; cases h) hcomp hA hg ?_ ?_
     · simp only [semItem]
-      exact alts_runs hB hC bodies k d _ _ sv hwfb.1 hwfb.2 hclb.2 hclb.1 hA'.left.right (cur_lt hc)
+      refine alts_runs hB hC bodies k d _ _ sv pcR (t && silent r) hwfb.1 hwfb.2 hclb hA'.left.right (cur_lt hc) ?_
+      intro htl
+      simp only [Bool.and_eq_true] at htl
+      have := hfr htl.1
+      rw [hl, comp_silent r _ htl.2] at this
+      exact this.cast (by simp only [List.length_nil]; omega)
     · intro c1 sv1 hc1
-      exact comp_runs hB hC r _ d none 0 _ c1 sv1 pcR (wf_cons hwf).2 (cl_cons hcl).2
-        (by simpa [Nat.add_assoc] using hA'.right) rfl hc1 (hfr_tail hfr (by rw [hl]; omega))
+      exact comp_runs hB hC r _ d none 0 _ c1 sv1 pcR t (wf_cons hwf).2 (sc_tail hcl)
+        (by simpa [Nat.add_assoc] using hA'.right) rfl hc1 (term_tail hfr (by rw [hl]; omega))
 theorem alts_runs (hB : ∀ b, Atom.byte b ∈ U → b < 256) (hC : Coherent S) :
-    ∀ (bodies : List (List Item)) (k d pc c : Nat) (sv : Array Nat), bodies ≠ [] → wfAlts d bodies = true →
-    closedLastAlts bodies = true → openRangeLast bodies = false → At U pc (compAlts k bodies) → c < 4294967296 →
+    ∀ (bodies : List (List Item)) (k d pc c : Nat) (sv : Array Nat) (pcR : Nat) (tl : Bool), bodies ≠ [] →
+    wfAlts d bodies = true → scopeOKAlts tl bodies = true → At U pc (compAlts k bodies) → c < 4294967296 →
+    (tl = true → IsTerm S U (pc + (compAlts k bodies).length) pcR) →
     Runs S U k pc (compAlts k bodies).length 0 c sv (semAlts S k bodies c)
-  | [], _, _, _, _, _, hne, _, _, _, _, _ => absurd rfl hne
-  | [b], k, d, pc, c, sv, _, hwf, hcl, hop, hA, hc => by
+  | [], _, _, _, _, _, _, _, hne, _, _, _, _, _ => absurd rfl hne
+  | [b], k, d, pc, c, sv, pcR, tl, _, hwf, hcl, hA, hc, hfr => by
     have hwfb : wfItems d b = true := by simpa [wfAlts] using hwf
-    have hclb : closedLast b = true := by simpa [closedLastAlts] using hcl
-    have hopb : openRange b = false := by simpa [openRangeLast] using hop
+    have hclb : scopeOK tl b = true := by simpa [scopeOKAlts] using hcl
     simp only [compAlts] at hA ⊢
     have hnop : U[pc]? = some .nop := hA.head
     have h1 : execT S U ⟨pc, c, sv⟩ 0xff 0 = execT S U ⟨pc + 1, c, sv⟩ 0xff 0 :=
       execT_step_some hS (st := ⟨pc, c, sv⟩) hnop rfl rfl
-    have := comp_runs hB hC b k d none 0 (pc + 1) c sv 0 hwfb hclb hA.tail rfl hc (Or.inl hopb)
+    have := comp_runs hB hC b k d none 0 (pc + 1) c sv pcR tl hwfb hclb hA.tail rfl hc
+      (term_tail hfr (by simp only [compAlts, List.length_cons]; omega))
     have h2 : semAlts S k [b] c = sem S k b c := by
       simp only [semAlts]
       cases sem S k b c <;> rfl
     rw [h2]
     exact Runs.of_eq h1 (by simp only [List.length_cons]; omega) this
-  | b :: b' :: bs, k, d, pc, c, sv, _, hwf, hcl, hop, hA, hc => by
+  | b :: b' :: bs, k, d, pc, c, sv, pcR, tl, _, hwf, hcl, hA, hc, hfr => by
     have hwfb : wfItems d b = true ∧ wfAlts d (b' :: bs) = true := by
       simpa [wfAlts] using hwf
-    have hclb : closedLast b = true ∧ closedLastAlts (b' :: bs) = true := by
-      simpa [closedLastAlts] using hcl
-    have hopb : openRangeLast (b' :: bs) = false := by simpa [openRangeLast] using hop
+    have hclb : scopeOK true b = true ∧ scopeOKAlts tl (b' :: bs) = true := by
+      rw [scopeOKAlts] at hcl
+      · simpa using hcl
+      · intro h; cases h
     have hcomp : compAlts k (b :: b' :: bs) =
         .case ((comp k none b).length + 1) :: (comp k none b ++ .brk (compAlts k (b' :: bs)).length :: compAlts k (b' :: bs)) := by
       rw [compAlts]
       intro h; cases h
-    rw [hcomp] at hA ⊢
+    rw [hcomp] at hA hfr ⊢
     have hcase : U[pc]? = some (.case ((comp k none b).length + 1)) := hA.head
     have hbrk : U[pc + 1 + (comp k none b).length]? = some (.brk (compAlts k (b' :: bs)).length) := hA.tail.right.head
     have hArest : At U (pc + 1 + (comp k none b).length + 1) (compAlts k (b' :: bs)) := hA.tail.right.tail
-    have hb := comp_runs hB hC b k d none 0 (pc + 1) c sv _ hwfb.1 hclb.1 hA.tail.left rfl hc
-      (Or.inr (IsTerm.brk hS hbrk))
+    have hb := comp_runs hB hC b k d none 0 (pc + 1) c sv _ true hwfb.1 hclb.1 hA.tail.left rfl hc
+      (fun _ => IsTerm.brk hS hbrk)
     have hcs := execT_case hS (st := ⟨pc, c, sv⟩) (m := 0xff) (e := 0) hcase
     have hsa : semAlts S k (b :: b' :: bs) c =
         match sem S k b c with
@@ -1668,7 +1676,7 @@ theorem alts_runs (hB : ∀ b, Atom.byte b ∈ U → b < 256) (hC : Coherent S) 
         (comp k none b ++ Atom.brk (compAlts k (b' :: bs)).length :: compAlts k (b' :: bs))).length =
         1 + (comp k none b).length + 1 + (compAlts k (b' :: bs)).length := by
       simp only [List.length_cons, List.length_append]; omega
-    rw [hlen]
+    rw [hlen] at hfr ⊢
     cases hs : sem S k b c with
     | some x =>
       obtain ⟨c', w⟩ := x
@@ -1680,8 +1688,8 @@ theorem alts_runs (hB : ∀ b, Atom.byte b ∈ U → b < 256) (hC : Coherent S) 
     | none =>
       rw [show cur none 0 c = c from rfl, hs] at hb
       obtain ⟨st', he, hok⟩ := hb
-      have ih := alts_runs hB hC (b' :: bs) k d (pc + 1 + (comp k none b).length + 1) c st'.save (by simp) hwfb.2 hclb.2
-        hopb hArest hc
+      have ih := alts_runs hB hC (b' :: bs) k d (pc + 1 + (comp k none b).length + 1) c st'.save pcR tl (by simp) hwfb.2
+        hclb.2 hArest hc (term_tail hfr (by omega))
       have he2 : execT S U ⟨pc, c, sv⟩ 0xff 0 =
           execT S U ⟨pc + 1 + (comp k none b).length + 1, c, st'.save⟩ 0xff 0 := by
         rw [hcs, he]
@@ -1859,7 +1867,7 @@ theorem trimmedTail_inert {p : Pat} (h : InFragment p = true) : ∀ a ∈ trimme
 
 /-- **T2 before trimming**: `Scanner::exec` on the untrimmed code computes the documented semantics -/
 theorem run_compileRaw {S : ScanI} (hS : S.WF) (hC : Coherent S) (p : Pat) (hwf : WF p = true)
-    (hcl : closedLast p = true) (c : Nat) (hc : c < 4294967296) (save0 : Array Nat) :
+    (hcl : scopeOK true p = true) (c : Nat) (hc : c < 4294967296) (save0 : Array Nat) :
     ∃ save, run S (compileRaw p) c save0 = .ok ((denote S p c).isSome, save) ∧ save.size = save0.size ∧
       ∀ c' w, denote S p c = some (c', w) → ∀ s v, (s, v) ∈ w → s < save0.size → save[s]? = some v := by
   simp only [WF, Bool.and_eq_true, decide_eq_true_eq] at hwf
@@ -1872,8 +1880,8 @@ theorem run_compileRaw {S : ScanI} (hS : S.WF) (hC : Coherent S) (p : Pat) (hwf 
     intro i a ha
     rw [hU, Nat.add_comm, List.getElem?_cons_succ]; exact ha
   have hlen : U.length = 1 + (comp 1 none p).length := by rw [hU]; simp only [List.length_cons]; omega
-  have hrun := comp_runs hS hB hC p 1 0 none 0 1 c (saveSet save0 0 c) U.length hwf1 hcl hA rfl hc
-    (Or.inr ((IsTerm.end_ hS (Nat.le_refl _)).cast hlen))
+  have hrun := comp_runs hS hB hC p 1 0 none 0 1 c (saveSet save0 0 c) U.length true hwf1 hcl hA rfl hc
+    (fun _ => (IsTerm.end_ hS (Nat.le_refl _)).cast hlen)
   have h0 : execT S U ⟨0, c, save0⟩ 0xff 0 = execT S U ⟨1, c, saveSet save0 0 c⟩ 0xff 0 :=
     execT_step_some hS (st := ⟨0, c, save0⟩) (a := .save 0) (by rw [hU]; rfl) rfl rfl
   have hex : exec S U (fuelFor U) ⟨0, c, save0⟩ 0xff 0 = .ok (execT S U ⟨0, c, save0⟩ 0xff 0) :=
@@ -1916,7 +1924,7 @@ theorem run_compile {S : ScanI} (hS : S.WF) (hC : Coherent S) (p : Pat) (hwf : W
     (hfr : InFragment p = true) (c : Nat) (hc : c < 4294967296) (save0 : Array Nat) :
     ∃ save, run S (compile p) c save0 = .ok ((denote S p c).isSome, save) ∧ save.size = save0.size ∧
       ∀ c' w, denote S p c = some (c', w) → ∀ s v, (s, v) ∈ w → s < save0.size → save[s]? = some v := by
-  have hcl : closedLast p = true := by
+  have hcl : scopeOK true p = true := by
     simp only [InFragment, Bool.and_eq_true] at hfr; exact hfr.1
   have := run_trim hS (compile p) (trimmedTail (compileRaw p)) (trimmedTail_inert hfr) c save0
   rw [show compile p = trimEnd (compileRaw p) from rfl, ← trim_split] at this
@@ -2023,5 +2031,186 @@ theorem coherent_ofView_file (v : Pe.View) (hk : v.kind = .file) (hd : SecsDisjo
       rw [hw, hsl]
       simp only [leN]
   · cases hs
+
+
+
+open Pelite.Pe in
+/-- the decidable check of `Spec/PatternSem.lean` implies disjointness -/
+theorem secsDisjoint_of_check : ∀ (secs : List Sec), secsDisjointB secs = true → SecsDisjoint secs
+  | [], _ => by intro s hs; cases hs
+  | s :: r, h => by
+    simp only [secsDisjointB, Bool.and_eq_true, decide_eq_true_eq, List.all_eq_true, Bool.or_eq_true] at h
+    obtain ⟨⟨hnw, hall⟩, hr⟩ := h
+    have ih := secsDisjoint_of_check r hr
+    have hnwr : ∀ t ∈ r, t.va + max t.vs t.rs < 4294967296 := by
+      clear ih hall
+      induction r with
+      | nil => intro t ht; cases ht
+      | cons u r ihr =>
+        simp only [secsDisjointB, Bool.and_eq_true, decide_eq_true_eq] at hr
+        intro t ht
+        rcases List.mem_cons.1 ht with rfl | ht
+        · exact hr.1.1
+        · exact ihr hr.2 t ht
+    have hcross : ∀ t ∈ r, ∀ x, s.containsRva x = true → t.containsRva x = true → False := by
+      intro t ht x h1 h2
+      have h3 := hall t ht
+      have h4 := hnwr t ht
+      simp only [Sec.containsRva, Bool.and_eq_true, decide_eq_true_eq] at h1 h2
+      rw [Nat.mod_eq_of_lt hnw] at h1
+      rw [Nat.mod_eq_of_lt h4] at h2
+      omega
+    intro a ha b hb x hax hbx
+    rcases List.mem_cons.1 ha with ha1 | ha1
+    · rcases List.mem_cons.1 hb with hb1 | hb1
+      · rw [ha1, hb1]
+      · rw [ha1] at hax; exact (hcross b hb1 x hax hbx).elim
+    · rcases List.mem_cons.1 hb with hb1 | hb1
+      · rw [hb1] at hbx; exact (hcross a ha1 x hbx hax).elim
+      · exact ih a ha1 b hb1 x hax hbx
+
+/-! ## (H) `save_len` of the compiled pattern covers every slot of the pattern -/
+
+theorem slotOf_readAtom (sg : Bool) (w k : Nat) : slotOf (readAtom sg w k) = some k := by
+  unfold readAtom; split <;> rfl
+
+mutual
+/-- every slot number the syntax assigns inside a sequence is the operand of one of its atoms -/
+theorem covered_items : ∀ (items : List Item) (k : Nat) (pend : Option Nat) (s : Nat), k ≤ s → s < slotsItems k items →
+    ∃ a ∈ comp k pend items, slotOf a = some s
+  | [], k, pend, s, h1, h2 => by simp only [slotsItems] at h2; omega
+  | .ws x :: r, k, pend, s, h1, h2 => by
+    rw [comp]; exact covered_items r k pend s h1 (by simpa [slotsItems, slotsItem] using h2)
+  | .any :: r, k, pend, s, h1, h2 => by
+    have h2' : s < slotsItems k r := by simpa [slotsItems, slotsItem] using h2
+    cases pend with
+    | none => rw [comp]; exact covered_items r k _ s h1 h2'
+    | some n =>
+      rw [comp]
+      split
+      · exact covered_items r k _ s h1 h2'
+      · obtain ⟨a, ha, hs⟩ := covered_items r k (some 1) s h1 h2'
+        exact ⟨a, List.mem_cons_of_mem _ ha, hs⟩
+  | .skip n :: r, k, pend, s, h1, h2 => by
+    have h2' : s < slotsItems k r := by simpa [slotsItems, slotsItem] using h2
+    rw [comp]
+    split
+    · exact covered_items r k _ s h1 h2'
+    · obtain ⟨a, ha, hs⟩ := covered_items r k (some (n % 256)) s h1 h2'
+      exact ⟨a, List.mem_append_right _ ha, hs⟩
+  | .range x y :: r, k, pend, s, h1, h2 => by
+    have h2' : s < slotsItems k r := by simpa [slotsItems, slotsItem] using h2
+    rw [comp]
+    obtain ⟨a, ha, hs⟩ := covered_items r k none s h1 h2'
+    exact ⟨a, List.mem_append_right _ (List.mem_cons_of_mem _ ha), hs⟩
+  | .str bs :: r, k, pend, s, h1, h2 => by
+    have h2' : s < slotsItems k r := by simpa [slotsItems, slotsItem] using h2
+    rw [comp]
+    split
+    · exact covered_items r k _ s h1 h2'
+    · obtain ⟨a, ha, hs⟩ := covered_items r k none s h1 h2'
+      exact ⟨a, List.mem_append_right _ ha, hs⟩
+  | .byte b :: r, k, pend, s, h1, h2 => by
+    have h2' : s < slotsItems k r := by simpa [slotsItems, slotsItem] using h2
+    rw [comp]
+    obtain ⟨a, ha, hs⟩ := covered_items r k none s h1 h2'
+    exact ⟨a, List.mem_append_right _ (List.mem_cons_of_mem _ ha), hs⟩
+  | .jump j :: r, k, pend, s, h1, h2 => by
+    have h2' : s < slotsItems k r := by simpa [slotsItems, slotsItem] using h2
+    rw [comp]
+    obtain ⟨a, ha, hs⟩ := covered_items r k none s h1 h2'
+    exact ⟨a, List.mem_append_right _ (List.mem_cons_of_mem _ ha), hs⟩
+  | .aligned n :: r, k, pend, s, h1, h2 => by
+    have h2' : s < slotsItems k r := by simpa [slotsItems, slotsItem] using h2
+    rw [comp]
+    obtain ⟨a, ha, hs⟩ := covered_items r k none s h1 h2'
+    exact ⟨a, List.mem_append_right _ (List.mem_cons_of_mem _ ha), hs⟩
+  | .save :: r, k, pend, s, h1, h2 => by
+    have h2' : s < slotsItems (k + 1) r := by simpa [slotsItems, slotsItem] using h2
+    rw [comp]
+    by_cases hs : s = k
+    · exact ⟨.save k, List.mem_append_right _ (List.mem_cons_self ..), by rw [hs]; rfl⟩
+    · obtain ⟨a, ha, hsl⟩ := covered_items r (k + 1) none s (by omega) h2'
+      exact ⟨a, List.mem_append_right _ (List.mem_cons_of_mem _ ha), hsl⟩
+  | .zero :: r, k, pend, s, h1, h2 => by
+    have h2' : s < slotsItems (k + 1) r := by simpa [slotsItems, slotsItem] using h2
+    rw [comp]
+    by_cases hs : s = k
+    · exact ⟨.zero k, List.mem_append_right _ (List.mem_cons_self ..), by rw [hs]; rfl⟩
+    · obtain ⟨a, ha, hsl⟩ := covered_items r (k + 1) none s (by omega) h2'
+      exact ⟨a, List.mem_append_right _ (List.mem_cons_of_mem _ ha), hsl⟩
+  | .readI w :: r, k, pend, s, h1, h2 => by
+    have h2' : s < slotsItems (k + 1) r := by simpa [slotsItems, slotsItem] using h2
+    rw [comp]
+    by_cases hs : s = k
+    · exact ⟨readAtom true w k, List.mem_append_right _ (List.mem_cons_self ..), by rw [hs]; exact slotOf_readAtom _ _ _⟩
+    · obtain ⟨a, ha, hsl⟩ := covered_items r (k + 1) none s (by omega) h2'
+      exact ⟨a, List.mem_append_right _ (List.mem_cons_of_mem _ ha), hsl⟩
+  | .readU w :: r, k, pend, s, h1, h2 => by
+    have h2' : s < slotsItems (k + 1) r := by simpa [slotsItems, slotsItem] using h2
+    rw [comp]
+    by_cases hs : s = k
+    · exact ⟨readAtom false w k, List.mem_append_right _ (List.mem_cons_self ..), by rw [hs]; exact slotOf_readAtom _ _ _⟩
+    · obtain ⟨a, ha, hsl⟩ := covered_items r (k + 1) none s (by omega) h2'
+      exact ⟨a, List.mem_append_right _ (List.mem_cons_of_mem _ ha), hsl⟩
+  | .group j gap body :: r, k, pend, s, h1, h2 => by
+    have h2' : s < slotsItems (slotsItems k body) r := by simpa [slotsItems, slotsItem] using h2
+    rw [comp]
+    by_cases hs : s < slotsItems k body
+    · obtain ⟨a, ha, hsl⟩ := covered_items body k none s h1 hs
+      exact ⟨a, List.mem_append_right _ (List.mem_cons_of_mem _ (List.mem_cons_of_mem _ (List.mem_append_left _ ha))), hsl⟩
+    · obtain ⟨a, ha, hsl⟩ := covered_items r (slotsItems k body) none s (by omega) h2'
+      exact ⟨a, List.mem_append_right _ (List.mem_cons_of_mem _ (List.mem_cons_of_mem _
+        (List.mem_append_right _ (List.mem_cons_of_mem _ ha)))), hsl⟩
+  | .alt bodies :: r, k, pend, s, h1, h2 => by
+    have h2' : s < slotsItems (slotsAlts k bodies) r := by simpa [slotsItems, slotsItem] using h2
+    rw [comp]
+    by_cases hs : s < slotsAlts k bodies
+    · obtain ⟨a, ha, hsl⟩ := covered_alts bodies k s h1 hs
+      exact ⟨a, List.mem_append_left _ (List.mem_append_right _ ha), hsl⟩
+    · obtain ⟨a, ha, hsl⟩ := covered_items r (slotsAlts k bodies) none s (by omega) h2'
+      exact ⟨a, List.mem_append_right _ ha, hsl⟩
+theorem covered_alts : ∀ (bodies : List (List Item)) (k s : Nat), k ≤ s → s < slotsAlts k bodies →
+    ∃ a ∈ compAlts k bodies, slotOf a = some s
+  | [], k, s, h1, h2 => by simp only [slotsAlts] at h2; omega
+  | [b], k, s, h1, h2 => by
+    have h2' : s < slotsItems k b := by
+      simp only [slotsAlts] at h2
+      have := slotsItems_le k b
+      omega
+    obtain ⟨a, ha, hs⟩ := covered_items b k none s h1 h2'
+    exact ⟨a, by simp only [compAlts]; exact List.mem_cons_of_mem _ ha, hs⟩
+  | b :: b' :: bs, k, s, h1, h2 => by
+    rw [compAlts]
+    · by_cases hs : s < slotsItems k b
+      · obtain ⟨a, ha, hsl⟩ := covered_items b k none s h1 hs
+        exact ⟨a, List.mem_cons_of_mem _ (List.mem_append_left _ ha), hsl⟩
+      · have h2' : s < slotsAlts k (b' :: bs) := by
+          rw [slotsAlts] at h2
+          omega
+        obtain ⟨a, ha, hsl⟩ := covered_alts (b' :: bs) k s h1 h2'
+        exact ⟨a, List.mem_cons_of_mem _ (List.mem_append_right _ (List.mem_cons_of_mem _ ha)), hsl⟩
+    · intro h; cases h
+end
+
+/-- an atom with a slot operand survives trimming -/
+theorem mem_compile_of_slot {p : Pat} {a : Atom} {s : Nat} (ha : a ∈ compileRaw p) (hs : slotOf a = some s) :
+    a ∈ compile p := by
+  rw [trim_split (compileRaw p)] at ha
+  rcases List.mem_append.1 ha with h | h
+  · exact h
+  · have := trimmedTail_redundant _ a h
+    cases a <;> simp_all [redundant, slotOf]
+
+/-- **the advertised save length covers the whole range of slots the syntax assigns** -/
+theorem saveLen_compile_ge (p : Pat) : slotsItems 1 p ≤ saveLen (compile p) := by
+  have h1 := slotsItems_le 1 p
+  by_cases h : slotsItems 1 p = 1
+  · rw [h]
+    have : Atom.save 0 ∈ compile p := mem_compile_of_slot (s := 0) (List.mem_cons_self ..) rfl
+    exact saveLen_covers this (k := 0) rfl
+  · obtain ⟨a, ha, hs⟩ := covered_items p 1 none (slotsItems 1 p - 1) (by omega) (by omega)
+    have := saveLen_covers (mem_compile_of_slot (p := p) (List.mem_cons_of_mem _ ha) hs) hs
+    omega
 
 end Pelite.PatSem
